@@ -22,6 +22,8 @@ def run(cx):
     cx.rule("C07.R3", "K3", "no process-shared mutable static in crate acts")
     cx.rule("C07.R4", "K3", "another task's data is written only by the three known cross-task writers (update_data to ancestors, Process::set_data*, set_step_value)")
     cx.rule("C07.R5", "E3", "the keys of Task::outputs come only from the node's declared outputs, the expose env list (default [data]) and the task's `$outputs` list")
+    cx.rule("C07.R6", "K1", "a write reaches every enclosing scope that holds the name: the walk collects all ancestors, the update loop has no early exit, the writer's own data is always set; readers resolve inside the ancestry only")
+    r6(cx)
     m = cx.m
     pa = Prov(m, "alias")
     pv = Prov(m, "value")
@@ -250,3 +252,95 @@ def _key_source(f, pa, pv, r):
         if c.args:
             return _key_source(f, pa, pv, pa.root(f, c.args[0]))
     return "?"
+
+
+
+def loop_exits(f, header, body):
+    """normal-flow edges leaving the loop, as (from, to)"""
+    return sorted((b, s) for b in body for s in f.succ(b) if s not in body and f.blocks[s]["t"][0] != "unreachable")
+
+
+def _loop_end(m, g):
+    """the guard is the end of a loop: an iterator ran out / a `while let Some` saw None"""
+    r = g.root
+    return r[0] == "discr" and ((r[1][0] == "call" and bool(ITER_NEXT.search(r[1][1]))) or r[1][0] == "local") and discr_variants(m, g) == {"None"}
+
+
+def r6(cx):
+    from rules.c16 import natural_loops
+    m = cx.m
+    pa = Prov(m, "alias")
+    f = m.one(r"^%s::update_data$" % TASK)
+    loops = natural_loops(f)
+    upd = [c for c in f.calls() if c.q.endswith("Task::update_data_if_exists")]
+    push = [c for c in f.calls() if re.search(r"Vec::<.*>::push$", c.q) and "process::task::Task" in c.full]
+    if len(upd) != 1 or len(push) != 1:
+        raise Anchor("update_data: expected one ancestor update and one push of an ancestor")
+    # (a) the walk: a loop around the push, left only when `parent` is None, stepping with Task::parent
+    walk = [(h, body) for h, body in loops if push[0].b in body]
+    ok = False
+    why = "no loop around the push"
+    if walk:
+        h, body = min(walk, key=lambda x: len(x[1]))
+        ex = loop_exits(f, h, body)
+        t = f.blocks[h]["t"]
+        cond = pa.root(f, t[1]) if t[0] == "switch" else None
+        on_parent = cond is not None and cond[0] == "discr" and cond[1][0] in ("local", "call")
+        steps = [c for c in f.calls() if c.b in body and c.q.endswith("Task::parent")]
+        pushed = pa.root(f, push[0].args[1])
+        ok = len(ex) == 1 and ex[0][0] == h and on_parent and len(steps) >= 1 and f.dominates(push[0].b, steps[0].b)
+        why = "exits %s, steps %d" % (ex, len(steps))
+    cx.ob("C07.R6", "update_data:walk", ok, "update_data collects every ancestor: the walk pushes each task and steps to its parent until there is none (%s)" % why, push[0].loc)
+    # (b) the update loop over the collected ancestors: plain iteration, left only when the iterator ends
+    wl = [(h, body) for h, body in loops if upd[0].b in body]
+    ok = False
+    why = "no loop around the update"
+    if wl:
+        h, body = min(wl, key=lambda x: len(x[1]))
+        ex = loop_exits(f, h, body)
+        nxt = [c for c in f.calls() if c.b in body and ITER_NEXT.search(c.q) and f.dominates(c.b, upd[0].b)]
+        inner = nxt[-1] if nxt else None
+        plain = False
+        over_refs = False
+        if inner is not None:
+            src = pa.iter_source(f, ("call", inner.q, inner.b, ()))
+            if src is not None:
+                plain = all(re.search(r"::iter$|::into_iter$|Iterator>::rev$|Iterator::rev$|Deref>::deref$", a) for a in src[2])
+                vec = pa.root(f, push[0].args[0])
+                over_refs = src[0][:2] == vec[:2]
+        only_end = False
+        if inner is not None and len(ex) == 1:
+            # the exit edge is the None edge of the iterator
+            frm, to = ex[0]
+            t = f.blocks[frm]["t"]
+            if t[0] == "switch":
+                r = pa.root(f, t[1])
+                only_end = r[0] == "discr" and r[1][:3] == ("call", inner.q, inner.b)
+        ok = plain and over_refs and only_end
+        why = "exits %s, plain=%s, over the collected ancestors=%s" % (ex, plain, over_refs)
+    cx.ob("C07.R6", "update_data:all-holders", ok,
+          "update_data offers the value to every collected ancestor: plain iteration, no exit before the end (a holder left out keeps a stale copy that Task::find - nearest first - or Task::vars - outermost first - reads back) (%s)" % why, upd[0].loc)
+    # (c) the holder test: writes iff contains_key(name), the same name
+    clos = pa.root(f, upd[0].args[1])
+    okc = False
+    if clos[0] == "closure" and clos[1] in m.fns:
+        g = m.fns[clos[1]]
+        ck = [c for c in g.calls() if re.search(r"(Vars|Map::<.*>)::contains_key$", c.q)]
+        st = [c for c in g.calls() if c.q.endswith("Vars::set") or re.search(r"Vars::set::<", c.q)]
+        if len(ck) == 1 and len(st) == 1:
+            gs = guards_of(m, g, st[0].b, mode="alias")
+            okc = any(x.root == ("call", ck[0].q, ck[0].b, ()) and x.truth is True for x in gs) and len([x for x in gs if not x.neutral]) == 1
+            okc = okc and pa.root(g, ck[0].args[1])[:4] == pa.root(g, st[0].args[1])[:4]
+    cx.ob("C07.R6", "update_data:holder-test", okc, "an ancestor is written exactly when it already holds the name (contains_key), with that same name", upd[0].loc)
+    # (d) own data always set, with the whole vars
+    sd = [c for c in f.calls() if c.q.endswith("Task::set_data")]
+    oks = len(sd) == 1 and pa.root(f, sd[0].args[0])[:2] == ("param", 1) and pa.root(f, sd[0].args[1])[:2] == ("param", 2) and all(g.neutral or _loop_end(m, g) for g in guards_of(m, f, sd[0].b, mode="alias"))
+    cx.ob("C07.R6", "update_data:own", oks, "the writer's own data always receives the written values", sd[0].loc if sd else f.loc())
+    # (e) readers stay inside the ancestry: vars() and find() only step with Task::parent from self
+    for name in ("vars", "find"):
+        for g in m.find(r"^%s::%s(::<.*>)?$" % (TASK, name)):
+            others = [c for c in g.calls() if re.search(r"Task::(children|siblings|prev|next_tasks)$|Process::(task|tasks|root|find_tasks)", c.q)]
+            steps = [c for c in g.calls() if c.q.endswith("Task::parent")]
+            cx.ob("C07.R6", "%s:ancestry-only" % short_name(g.q).split("<")[0].rstrip(":"), not others and bool(steps), "`%s` reads the task's own data and walks Task::parent only: no value from outside the ancestry" % short_name(g.q), g.loc(), others=[c.q for c in others])
+            break
+    cx.floor("C07.R6", 6)
